@@ -26,6 +26,7 @@ META = {
     'stubs': ['Decimal(x, precision) rounding contract (converted Money amounts)'],
     'assumptions': ['reference model: a plain Python list used as stack'],
 }
+META['bounds'].append('every state check also converts between two non-base currencies (cross rate of the top converter)')
 
 RATES = ['1.1', '1.2', '1.3']
 HKD_RATES = ['8.1', '8.2', None]
